@@ -105,6 +105,8 @@ TARGETS = [
       'extern': {'_field_to_iso8583': ([('bit_config', 'cfg'), ('field_value', ('opt', 'anyval')), ('encoding', 'codec')],
                                        'bytes', True)},
       'lean_name': '_dict_to_iso8583_loop'}),
+    # the column slicing of the parameter reader (read-only method: expanded flag, decoder, table index, layouts are parameters)
+    ('cardutil/mciipm.py', 'IpmParamReader._get_param_field', {'record': 'bytes', 'field': 'str'}, 'str', {'readonly': True}),
     # FRAGMENTS of functions whose other statements call the cipher library: the decimalisation at the end of
     # calculate_pvv (from the first assignment to values_pass1, with the ciphertext `ct` as parameter), and the
     # combination loop at the start of get_zone_master_key (up to the assignment to binary_key, returning p1)
@@ -124,7 +126,10 @@ SELF_STATE = {'Block1014': {'fields': [('remaining_chars', 'int')], 'sink': 'fil
               'VbsWriter': {'fields': [('_finalised', 'bool')], 'file': 'out_file'},
               'BitArray': {'fields': [('bytes', 'bytes')]},
               'Iso0PinBlock': {'fields': [('pin', 'str'), ('card_number', 'str')], 'readonly': True},
-              'Iso4PinBlock': {'fields': [('pin', 'str'), ('random_value', 'int')], 'readonly': True}}
+              'Iso4PinBlock': {'fields': [('pin', 'str'), ('random_value', 'int')], 'readonly': True},
+              'IpmParamReader': {'fields': [('expanded', 'bool'), ('encoding', 'decoder'), ('table_index', ('dict', 'str', 'str')),
+                                            ('param_config', ('dict', 'str', ('dict', 'str', ('dict', 'str', 'int'))))],
+                                 'readonly': True}}
 
 EXC = {'AssertionError': 'assertionError', 'ValueError': 'valueError', 'IndexError': 'indexError',
        'TypeError': 'typeError', 'KeyError': 'keyError'}
@@ -242,6 +247,19 @@ class Translator:
                             and st.targets[0].id == attr and isinstance(st.value, ast.Constant):
                         return st.value.value
         raise Untranslatable(f'{cls}.{attr} is not a literal class attribute')
+
+    def class_slice(self, cls, attr):
+        """a class attribute `NAME = slice(a, b)` with literal bounds: (a, b), else None"""
+        for node in self.mod.body:
+            if isinstance(node, ast.ClassDef) and node.name == cls:
+                for st in node.body:
+                    if isinstance(st, ast.Assign) and len(st.targets) == 1 and isinstance(st.targets[0], ast.Name) \
+                            and st.targets[0].id == attr and isinstance(st.value, ast.Call) \
+                            and isinstance(st.value.func, ast.Name) and st.value.func.id == 'slice' \
+                            and len(st.value.args) == 2 and not st.value.keywords \
+                            and all(isinstance(a, ast.Constant) and isinstance(a.value, int) for a in st.value.args):
+                        return st.value.args[0].value, st.value.args[1].value
+        return None
 
     def coerce(self, code, typ, want):
         if typ == want:
@@ -565,6 +583,9 @@ class Translator:
             return self.cfg_field(vc, node.slice)
         if is_dict(vt):
             kc, kt = self.expr(node.slice, env)
+            if kt == ('opt', 'str'):
+                # d[k] where k came from another dict's .get(): None is a key no string-keyed dict has (KeyError)
+                return self.hoist(f'(Rt.dictGetO {vc} {kc})', vt[2])
             return self.hoist(f'(Rt.dictGet {vc} {self.coerce(kc, kt, "str")})', vt[2])
         if not is_seq(vt):
             raise Untranslatable(f'subscript of {vt}')
@@ -605,6 +626,9 @@ class Translator:
         f = node.func
         if isinstance(f, ast.Attribute) and f.attr == 'get' and len(node.args) == 1 and not node.keywords:
             dc, dt = self.expr(f.value, env)
+            if is_dict(dt) and dt[2] == 'str':
+                kc, kt = self.expr(node.args[0], env)
+                return f'(Rt.dictGetOpt {dc} {self.coerce(kc, kt, "str")})', ('opt', 'str')
             if is_dict(dt) and dt[2] == 'anyval':
                 kc, kt = self.expr(node.args[0], env)
                 return f'(Rt.dictGetOpt {dc} {self.coerce(kc, kt, "str")})', ('opt', 'anyval')
@@ -1378,6 +1402,18 @@ class SelfRewriter(ast.NodeTransformer):
     def __init__(self, tr, cls, spec):
         self.tr, self.cls, self.spec = tr, cls, spec
         self.fields = [f for f, _ in spec['fields']]
+
+    def visit_Subscript(self, node):
+        sl = node.slice
+        if isinstance(sl, ast.Attribute) and isinstance(sl.value, ast.Name) and sl.value.id == 'self' \
+                and sl.attr not in self.fields:
+            ab = self.tr.class_slice(self.cls, sl.attr)
+            if ab is not None:
+                # x[self.NAME] where the class says NAME = slice(a, b)
+                return ast.copy_location(ast.Subscript(
+                    value=self.visit(node.value),
+                    slice=ast.Slice(lower=ast.Constant(ab[0]), upper=ast.Constant(ab[1]), step=None), ctx=node.ctx), node)
+        return self.generic_visit(node)
 
     def visit_Attribute(self, node):
         if isinstance(node.value, ast.Name) and node.value.id == 'self':
